@@ -68,7 +68,7 @@ struct Run {
     free_seen: std::collections::HashSet<usize>,
 }
 
-fn history(rng: &mut Rng, run: &mut Run, len: usize, seed_tag: u64) {
+fn history(rng: &mut Rng, run: &mut Run, len: usize, seed_tag: u64, big: bool) {
     let wire = new_wire(0);
     let mut conn = Connection::new(VSocket(wire.clone()));
     let mut pending: Vec<Vec<u8>> = Vec::new(); // model: accepted, not yet flushed
@@ -103,6 +103,17 @@ fn history(rng: &mut Rng, run: &mut Run, len: usize, seed_tag: u64) {
                     }
                 }
             }
+        }
+        // "big" histories: long pipelines and single messages far beyond any plausible internal threshold
+        // (tens of KiB .. 1 MiB pending at flush time); what is pending must still go out in ONE write
+        if big && op.is_none() {
+            op = Some(match rng.below(20) {
+                0 => Op::Flush,
+                1 => Op::EnqueueSized(*rng.pick(&[4095usize, 4096, 8191, 8192, 16384, 32767, 32768, 65534, 65535, 65536, 65537, 70_000, 131_071, 131_072, 200_000]) - rng.below(3)),
+                2 => { let p = rng.chance(1, 6); Op::SendCall(rand_method(rng, p), rng.below(8) as u8) }
+                3 => { let p = rng.chance(1, 6); Op::SendError(rand_value(rng, p)) }
+                _ => Op::EnqueueSized(FILLER_MIN + 600 + rng.below(2400)),
+            });
         }
         let op = op.unwrap_or_else(|| {
             let poison = rng.chance(1, 8);
@@ -212,6 +223,10 @@ fn history(rng: &mut Rng, run: &mut Run, len: usize, seed_tag: u64) {
             }
             run.rep.count("flushes_checked");
             run.rep.max("max_messages_in_one_write", pending.len() as u64);
+            run.rep.max("max_bytes_in_one_write", exp.len() as u64);
+            if exp.len() > 65536 {
+                run.rep.count("writes_larger_than_64KiB_checked");
+            }
             pending.clear();
         } else if !new_writes.is_empty() {
             // writes when none is expected
@@ -262,8 +277,9 @@ pub fn run(cfg: &Cfg) -> Report {
     for i in 0..n {
         let tag = only.unwrap_or(base.wrapping_add(i));
         let mut rng = Rng::new(tag);
-        let len = rng.range(1, if miri { 12 } else { 40 });
-        history(&mut rng, &mut run, len, tag);
+        let big = !miri && rng.chance(1, 60);
+        let len = if big { rng.range(30, 400) } else { rng.range(1, if miri { 12 } else { 40 }) };
+        history(&mut rng, &mut run, len, tag, big);
         if only.is_some() {
             break;
         }
